@@ -60,6 +60,11 @@ type AnnoStructs struct {
 
 func Variants(msaIn io.Reader, stdin bool, refID string, annoIn io.Reader, annoSuffix string, out io.Writer, start int, end int, aggregate bool, threshold float64, appendSNP bool, threads int) error {
 
+	// a worker pool needs at least one worker (--threads 0 used to hang, negative values to panic)
+	if threads < 1 {
+		threads = 1
+	}
+
 	var err error
 
 	// Find the reference
